@@ -264,6 +264,10 @@ pub struct HSpec {
     /// slot for this kind is still free. Entries keep the position of their first handler.
     #[serde(default)]
     pub merge: bool,
+    /// Use the `streaming_*` variant of every content-inserting call (the content is written to
+    /// the streaming sink in several pieces, one of them split inside a character).
+    #[serde(default)]
+    pub streaming: bool,
 }
 
 impl HSpec {
@@ -276,6 +280,7 @@ impl HSpec {
             log: true,
             last_only: false,
             merge: false,
+            streaming: false,
         }
     }
     pub fn obs_end_tag(sel: &str) -> Self {
@@ -287,6 +292,7 @@ impl HSpec {
             log: true,
             last_only: false,
             merge: false,
+            streaming: false,
         }
     }
     pub fn with_ops(kind: HKind, sel: &str, ops: Vec<Op>) -> Self {
@@ -298,6 +304,7 @@ impl HSpec {
             log: true,
             last_only: false,
             merge: false,
+            streaming: false,
         }
     }
 }
@@ -349,6 +356,13 @@ impl Cfg {
     }
     /// Registers adjacent handlers of one selector (and adjacent document-level handlers) in
     /// one combined `ElementContentHandlers` / `DocumentContentHandlers` entry where possible.
+    /// Every content-inserting call goes through its `streaming_*` variant.
+    pub fn streaming(mut self, on: bool) -> Self {
+        for h in &mut self.handlers {
+            h.streaming = on;
+        }
+        self
+    }
     pub fn merged(mut self, m: bool) -> Self {
         for h in &mut self.handlers {
             h.merge = m;
@@ -493,12 +507,42 @@ macro_rules! observe_element {
     }};
 }
 
+/// A streaming handler that writes `s` in pieces: an empty piece, the first half as a string, the
+/// rest as UTF-8 chunks split after its first byte (inside a character if it is multi-byte).
+fn streamer(s: &str, html: bool) -> Box<dyn lol_html::html_content::StreamingHandler + Send> {
+    let s = s.to_string();
+    lol_html::streaming!(move |sink| {
+        let c = ct(html);
+        let mid = (0..=s.len() / 2).rev().find(|i| s.is_char_boundary(*i)).unwrap_or(0);
+        sink.write_str("", c);
+        sink.write_str(&s[..mid], c);
+        let rest = &s.as_bytes()[mid..];
+        if rest.len() >= 2 {
+            sink.write_utf8_chunk(&rest[..1], c).map_err(|e| e.to_string())?;
+            sink.write_utf8_chunk(&rest[1..], c).map_err(|e| e.to_string())?;
+        } else {
+            sink.write_utf8_chunk(rest, c).map_err(|e| e.to_string())?;
+        }
+        Ok(())
+    })
+}
+
 macro_rules! apply_element_ops {
-    ($el:expr, $ops:expr, $reg:expr, $shared:expr) => {{
+    ($el:expr, $ops:expr, $reg:expr, $shared:expr, $streaming:expr) => {{
         let el = $el;
+        let streaming: bool = $streaming;
         let mut reread = false;
         for (i, op) in $ops.iter().enumerate() {
             match op {
+                Op::Before(s, h) if streaming => el.streaming_before(streamer(s, *h)),
+                Op::After(s, h) if streaming => el.streaming_after(streamer(s, *h)),
+                Op::Prepend(s, h) if streaming => el.streaming_prepend(streamer(s, *h)),
+                Op::Append(s, h) if streaming => el.streaming_append(streamer(s, *h)),
+                Op::Replace(s, h) if streaming => el.streaming_replace(streamer(s, *h)),
+                Op::SetInner(s, h) if streaming => el.streaming_set_inner_content(streamer(s, *h)),
+                Op::StBefore(s, h) if streaming => el.start_tag().streaming_before(streamer(s, *h)),
+                Op::StAfter(s, h) if streaming => el.start_tag().streaming_after(streamer(s, *h)),
+                Op::StReplace(s, h) if streaming => el.start_tag().streaming_replace(streamer(s, *h)),
                 Op::Before(s, h) => el.before(s, ct(*h)),
                 Op::After(s, h) => el.after(s, ct(*h)),
                 Op::Prepend(s, h) => el.prepend(s, ct(*h)),
@@ -555,9 +599,12 @@ macro_rules! apply_element_ops {
     }};
 }
 
-fn apply_end_tag_ops(t: &mut EndTag<'_>, ops: &[Op]) {
+fn apply_end_tag_ops(t: &mut EndTag<'_>, ops: &[Op], streaming: bool) {
     for op in ops {
         match op {
+            Op::Before(s, h) if streaming => t.streaming_before(streamer(s, *h)),
+            Op::After(s, h) if streaming => t.streaming_after(streamer(s, *h)),
+            Op::Replace(s, h) if streaming => t.streaming_replace(streamer(s, *h)),
             Op::Before(s, h) => t.before(s, ct(*h)),
             Op::After(s, h) => t.after(s, ct(*h)),
             Op::Replace(s, h) => t.replace(s, ct(*h)),
@@ -568,9 +615,12 @@ fn apply_end_tag_ops(t: &mut EndTag<'_>, ops: &[Op]) {
     }
 }
 
-fn apply_comment_ops(c: &mut Comment<'_>, ops: &[Op], reg: u16, shared: &SharedRef) {
+fn apply_comment_ops(c: &mut Comment<'_>, ops: &[Op], reg: u16, shared: &SharedRef, streaming: bool) {
     for (i, op) in ops.iter().enumerate() {
         match op {
+            Op::Before(s, h) if streaming => c.streaming_before(streamer(s, *h)),
+            Op::After(s, h) if streaming => c.streaming_after(streamer(s, *h)),
+            Op::Replace(s, h) if streaming => c.streaming_replace(streamer(s, *h)),
             Op::Before(s, h) => c.before(s, ct(*h)),
             Op::After(s, h) => c.after(s, ct(*h)),
             Op::Replace(s, h) => c.replace(s, ct(*h)),
@@ -591,9 +641,12 @@ fn apply_comment_ops(c: &mut Comment<'_>, ops: &[Op], reg: u16, shared: &SharedR
     }
 }
 
-fn apply_text_ops(t: &mut TextChunk<'_>, ops: &[Op]) {
+fn apply_text_ops(t: &mut TextChunk<'_>, ops: &[Op], streaming: bool) {
     for op in ops {
         match op {
+            Op::Before(s, h) if streaming => t.streaming_before(streamer(s, *h)),
+            Op::After(s, h) if streaming => t.streaming_after(streamer(s, *h)),
+            Op::Replace(s, h) if streaming => t.streaming_replace(streamer(s, *h)),
             Op::Before(s, h) => t.before(s, ct(*h)),
             Op::After(s, h) => t.after(s, ct(*h)),
             Op::Replace(s, h) => t.replace(s, ct(*h)),
@@ -685,6 +738,7 @@ macro_rules! make_builder {
                 let ops = h.ops.clone();
                 let do_log = h.log;
                 let last_only = h.last_only;
+                let streaming = h.streaming;
                 match h.kind {
                     HKind::Element => {
                         let end_ops = h.end_tag_ops.clone();
@@ -693,7 +747,7 @@ macro_rules! make_builder {
                                 push(&sh, observe_element!(*el, reg));
                             }
                             tick(&sh, fail_at)?;
-                            apply_element_ops!(&mut *el, ops, reg, &sh);
+                            apply_element_ops!(&mut *el, ops, reg, &sh, streaming);
                             if let Some(end_ops) = &end_ops {
                                 let sh2 = sh.clone();
                                 let end_ops = end_ops.clone();
@@ -703,7 +757,7 @@ macro_rules! make_builder {
                                         push(&sh2, observe_end_tag(t, reg));
                                     }
                                     tick(&sh2, fail_at)?;
-                                    apply_end_tag_ops(t, &end_ops);
+                                    apply_end_tag_ops(t, &end_ops, streaming);
                                     Ok(())
                                 }));
                                 if r.is_err() {
@@ -722,7 +776,7 @@ macro_rules! make_builder {
                             }
                             tick(&sh, fail_at)?;
                             if !last_only || t.last_in_text_node() {
-                                apply_text_ops(t, &ops);
+                                apply_text_ops(t, &ops, streaming);
                             }
                             Ok(())
                         };
@@ -735,7 +789,7 @@ macro_rules! make_builder {
                                 push(&sh, observe_comment(c, reg));
                             }
                             tick(&sh, fail_at)?;
-                            apply_comment_ops(c, &ops, reg, &sh);
+                            apply_comment_ops(c, &ops, reg, &sh, streaming);
                             Ok(())
                         };
                         let (i, used, e) = el_slot!(idx, h, 2);
@@ -761,7 +815,7 @@ macro_rules! make_builder {
                                 push(&sh, observe_comment(c, reg));
                             }
                             tick(&sh, fail_at)?;
-                            apply_comment_ops(c, &ops, reg, &sh);
+                            apply_comment_ops(c, &ops, reg, &sh, streaming);
                             Ok(())
                         };
                         let (used, d) = doc_slot!(h, 1);
@@ -774,7 +828,7 @@ macro_rules! make_builder {
                             }
                             tick(&sh, fail_at)?;
                             if !last_only || t.last_in_text_node() {
-                                apply_text_ops(t, &ops);
+                                apply_text_ops(t, &ops, streaming);
                             }
                             Ok(())
                         };
